@@ -37,7 +37,7 @@ Fixpoint ref_up (segs : list Timeline.seg) (rtaw : Z) (relNr : Z) : res (Z * Tim
 Definition refMetaFromTime (vr : Timeline.rep) (c : Timeline.tcfg) (F a time nowMS : Z)
   : Timeline.outcome Timeline.segmeta :=
   if F =? 0 then Timeline.TErr "no constant sample duration" else
-  if negb (time mod F =? 0) then Timeline.TErr "time must be multiple of sample duration" else
+  if negb (time mod F =? 0) then Timeline.TNotFound (* "time must be multiple of sample duration", 404 since 33c7128 *) else
   let refTotDur := u64 (Timeline.repDuration vr) in
   let nrSegs := lenZ (Timeline.segs vr) in
   if a =? 0 then Timeline.TPanic "findRefSegMetaFromTime: integer divide by zero (rep.MediaTimescale)" else
@@ -79,17 +79,27 @@ Definition refMeta (vr : Timeline.rep) (loopMS : Z) (c : Timeline.tcfg) (F a : Z
   | Timeline.ByTime => refMetaFromTime vr c F a (u64 segID) nowMS
   end.
 
-(** createAudioSegment (L596-625): reference lookup, recipe, createAudioSeg *)
+(** createAudioSegment: reference lookup, recipe, (since 33c7128) for $Time$ addressing the requested
+    time must be the start time of the recipe, else 404; createAudioSeg *)
 Definition audio_request (vr : Timeline.rep) (loopMS : Z) (c : Timeline.tcfg) (F a : Z)
            (tab : list seg) (mode : Timeline.addressing) (segID nowMS : Z) : Timeline.outcome outseg :=
   match refMeta vr loopMS c F a mode segID nowMS with
   | Timeline.TOk m =>
-      lift (audio_segment (Timeline.newNr m) (Timeline.newTime m)
-                          (u64 (Timeline.newTime m + Timeline.newDur m))
-                          (u64 (Timeline.repDuration vr)) (u64 (Timeline.ts vr)) F a tab)
+      match calcAudioSegRecipe (Timeline.newNr m) (Timeline.newTime m)
+                               (u64 (Timeline.newTime m + Timeline.newDur m))
+                               (u64 (Timeline.repDuration vr)) (u64 (Timeline.ts vr)) F a with
+      | Ok rc =>
+          let is_time := match mode with Timeline.ByTime => true | Timeline.ByNumber => false end in
+          if is_time && negb (r_start rc =? u64 segID) then Timeline.TNotFound
+          else lift (create_audio_seg F tab rc)
+      | Err e => Timeline.TErr e
+      | Panic s => Timeline.TPanic s
+      end
   | Timeline.TTooEarly ms => Timeline.TTooEarly ms
   | Timeline.TGone => Timeline.TGone
   | Timeline.TNotFound => Timeline.TNotFound
   | Timeline.TErr e => Timeline.TErr e
   | Timeline.TPanic s => Timeline.TPanic s
   end.
+
+(** for $Number$ addressing (and whenever the time check passes) this is [audio_segment] *)
